@@ -165,13 +165,16 @@ def run_case(case):
 # ------------------------------------------------------------------------------------------------
 # conformance with real interpreters
 
-def _battery(seed, tier, only=None, reverse=False):
+NPARTS = 8
+
+
+def _battery(seed, tier, only=None, reverse=False, part=None):
     env = dict(os.environ)
     if seed is None:
         env.pop("PYTHONHASHSEED", None)
     else:
         env["PYTHONHASHSEED"] = seed
-    cmd = [sys.executable, "-m", "mc.battery", tier, only or "-"] + (["reverse"] if reverse else [])
+    cmd = [sys.executable, "-m", "mc.battery", tier, only or "-"] + (["reverse"] if reverse else []) + (["part:%d/%d" % (part, NPARTS)] if part is not None else [])
     cp = subprocess.run(cmd, cwd=ROOT, env=env, capture_output=True, text=True)
     if cp.returncode != 0:
         raise RuntimeError("battery failed (seed %s): %s" % (seed, cp.stderr[-2000:]))
@@ -183,8 +186,12 @@ def post_phase(tier, seed):
     seeds = SEEDS(tier)
     with ThreadPoolExecutor(max_workers=16) as ex:
         fut_rev = ex.submit(_battery, "0", tier, None, True)
+        fut_parts = [ex.submit(_battery, "0", tier, None, False, i) for i in range(NPARTS)]
         runs = list(ex.map(lambda s: _battery(s, tier), seeds))
         rev = fut_rev.result()
+        parts = {}
+        for f in fut_parts:
+            parts.update(f.result())
     # repeated calls in one process: the battery module run twice in one interpreter
     code = ("import io,sys,json,contextlib\nfrom mc import battery\nres=[]\n"
             "for _ in range(2):\n b=io.StringIO()\n sys.argv=['battery',%r]\n with contextlib.redirect_stdout(b): battery.main()\n res.append(json.loads(b.getvalue()))\n"
@@ -209,6 +216,9 @@ def post_phase(tier, seed):
         if seeds[0] == "0" and rev.get(k) != runs[0].get(k):
             viols.append(viol("depends-on-processing-order:" + k.split(":")[-1], "output %s differs when the same inputs are processed in the opposite order in one interpreter (same hash seed)" % k,
                               [runs[0].get(k), rev.get(k)], "identical") | dict(case=dict(battery_key=k, seeds=["0", "0"], tier=tier, order=True), no_confirm=True))
+        if seeds[0] == "0" and k in parts and parts[k] != runs[0].get(k):
+            viols.append(viol("depends-on-process-history:" + k.split(":")[-1], "output %s differs when the structure is converted after another history of conversions in a fresh interpreter (every %dth structure only; same hash seed)" % (k, NPARTS),
+                              [runs[0].get(k), parts[k]], "identical") | dict(case=dict(battery_key=k, seeds=["0", "0"], tier=tier, order=True), no_confirm=True))
         if rep[0].get(k) != rep[1].get(k):
             viols.append(viol("differs-in-process:" + k.split(":")[-1], "output %s differs between two calls in one process" % k, [rep[0].get(k), rep[1].get(k)], "identical")
                          | dict(case=dict(battery_key=k, seeds=["0", "0"], tier=tier), no_confirm=True))
